@@ -619,8 +619,18 @@ def unmodelled(reader: str, lit: str) -> bool:
     """Literal forms the real tool-chain accepts that the Lean decoders deliberately reject
     (they can only make `dec (enc s) = some s` harder, never wrongly true)."""
     if reader in ("py", "pyf"):
-        # \N{...} names, and Python's deprecated acceptance of unknown escapes (SyntaxWarning)
-        return True if "\\" in lit else False
+        # triple-quoted literals, \N{...} names, and CPython's acceptance of unknown escapes (SyntaxWarning)
+        if lit[:3] in ("\'\'\'", '"""'):
+            return True
+        i = 0
+        while i < len(lit) - 1:
+            if lit[i] == "\\":
+                if lit[i + 1] not in "\n\\'\"abfnrtvxuU01234567":
+                    return True
+                i += 2
+            else:
+                i += 1
+        return False
     if reader in ("cppw", "cppn", "cppc"):
         # raw non-ASCII in narrow literals (execution charset), multi-character constants, \e and other extensions,
         # universal-character-names below U+00A0 (allowed in literals since C++11) and \u{...}, \o{...}
